@@ -62,18 +62,40 @@ ISNUM = [
     ('ensures', '[C18] every number look-alike (string in M) is recognised, so that is_unquoted_safe refuses it and the encoder quotes it', '(vx_consumed == vx_n && spec_toon_numlike_accepting(vx_q)) ==> __CPROVER_return_value'),
     ('ensures', '[C18] the monitor has seen the whole string unless is_number gave up at a character where M rejects', 'vx_consumed == vx_n || (vx_q == TM_REJ && !__CPROVER_return_value)'),
 ]
+# --- encoder: which strings may be written without quotes (TOON specification, "Quoting rules for string values") ---
+SPECIAL = "(%s == ':' || %s == '[' || %s == ']' || %s == '{' || %s == '}' || %s == '\\\"' || %s == '\\\\' || %s == '\\n' || %s == '\\r' || %s == '\\t')"
+def sp(x): return SPECIAL % ((x,) * 10)
+Q_LOOP = '''__CPROVER_assigns(vx_i)
+  __CPROVER_loop_invariant(vx_i <= vx_n && (vx_w < vx_i ==> (!%s && vx_tok[vx_w] != delimiter)))
+  __CPROVER_decreases(vx_n - vx_i)''' % sp('vx_tok[vx_w]')
+Q_RULES = [
+    (r'str\.empty\(\)', '(vx_n == 0)', 1, 2), (r'std::isspace\(static_cast<unsigned char>\(([^()]+\(\))\)\)', r'vx_isspace(\1)', 2, 3),
+    (r'is_number\(str\)', 'is_number()', 1), (r'str == null_literal \|\| str == true_literal \|\| str == false_literal', 'vx_is_literal', 1),
+    (r'for \(auto c : str\)\s*\{', 'for (size_t vx_i = 0; vx_i < vx_n; ++vx_i) { char c = vx_tok[vx_i];', 1),
+    (r'str\.front\(\)', 'vx_tok[0]', 1, 4), (r'str\.back\(\)', 'vx_tok[vx_n - 1]', 1, 2), (r'str\.(?:size|length)\(\)', 'vx_n', 0, 3),
+]
+UNQ = [
+    ('requires', 'vx_n <= 100000000 && (vx_n == 0 || __CPROVER_is_fresh(vx_tok, vx_n)) && (vx_n == 0 || vx_w < vx_n) && vx_q == TM_START && vx_qp == TP_START && vx_consumed == 0 && vx_ndig == 0 && vx_nfrac == 0 && !vx_seen_dot'),
+    ('assigns', 'vx_q, vx_qp, vx_consumed, vx_ndig, vx_nfrac, vx_seen_dot, vx_nz_i, vx_nz_c'),
+    ('ensures', '[C18] a string is written without quotes only if it is not empty, has no white space at either end, is not true / false / null, does not start with "-", and is not a number look-alike (so a reader cannot take it for anything but this string)',
+     '__CPROVER_return_value ==> (vx_n >= 1 && !vx_isspace(vx_tok[0]) && !vx_isspace(vx_tok[vx_n - 1]) && !vx_is_literal && vx_tok[0] != \'-\' && !(vx_consumed == vx_n && spec_toon_numlike_accepting(vx_q)))'),
+    ('ensures', '[C18] ... and contains (watched position: any) none of : [ ] { } " \\ LF CR TAB and not the active delimiter (the characters that end a token, open a structure or need an escape)',
+     '(__CPROVER_return_value && vx_n >= 1) ==> (!%s && vx_tok[vx_w] != delimiter)' % sp('vx_tok[vx_w]')),
+]
 SPECS = [
     EnumSpec('parse_number_state', R), EnumSpec('is_number_state', E),
     FuncSpec('scan_number_token', R, r'jsoncons::expected<void,std::error_code> parse_primitive\(jsoncons::span<char> token, jsoncons::json_visitor& visitor\)', count=1, csig='void scan_number_token(void)', contract=SCAN, rules=R_RULES,
              slice_from=r'std::string num_str;', slice_to=r'if \(not_a_number\)\s*\{\s*visitor\.string_value\(jsoncons::string_view\(token\.data\(\), token\.size\(\)\)\);\s*return result_type\{\};\s*\}\s*if \(!exponent_str\.empty\(\)\)',
              loops={0: R_LOOP, 'count': 1}),
     FuncSpec('is_number', E, r'bool is_number\(jsoncons::string_view str\)', count=1, csig='bool is_number(void)', contract=ISNUM, rules=E_RULES, loops={0: E_LOOP, 'count': 1}),
+    FuncSpec('is_unquoted_safe', E, r'bool is_unquoted_safe\(jsoncons::string_view str, char delimiter = \',\'\)', count=1, csig='bool is_unquoted_safe(char delimiter)', contract=UNQ, rules=Q_RULES, loops={0: Q_LOOP, 'count': 1}),
 ]
 SITE_CHECKS = [
     {'file': E, 'pattern': r'if \(is_number\(str\)\)\s*\{\s*return false;\s*\}', 'count': 1, 'props': ['C18'], 'what': 'is_unquoted_safe refuses every string that is_number recognises, so such strings are quoted'},
     {'file': R, 'pattern': r'\bparse_number\(', 'count': 1, 'props': ['C18'], 'what': 'the second number routine of the reader (parse_number) is defined but never called: parse_primitive is the only place where tokens become numbers'},
 ]
 HARNESSES = [
+    Harness('is_unquoted_safe', 'h_is_unquoted_safe', enforce='is_unquoted_safe', replace=['is_number'], loop_contracts=True, method='LC', props=['C18'], expect_classes={'loop_invariant_step': 1}),
     Harness('scan_number_token', 'h_scan_number_token', enforce='scan_number_token', loop_contracts=True, method='LC', props=['C18', 'C04'], expect_classes={'loop_invariant_step': 1}, timeout=1200,
             note='slice of parse_primitive: from the declaration of the scan results to the decision "not a number -> string"; the assembly of the normalised text (insertion of "." and "-", exponent shifting) and the conversions are not under contract'),
     Harness('is_number', 'h_is_number', enforce='is_number', loop_contracts=True, method='LC', props=['C18'], expect_classes={'loop_invariant_step': 1}, timeout=1200),
